@@ -20,15 +20,18 @@ repaired in /repo): it now hands out a 0 x N view, which is judged like any othe
 from __future__ import annotations
 
 import copy
+import itertools
 import math
 import warnings
 from datetime import timedelta
 
 import numpy as np
 
+from acnportal.acnsim.network.current import Current
+
 from core import simcase as S
 from core import impl as I
-from core.common import b2f, close
+from core.common import b2f, f2b, close
 
 ID = "C05"
 LEAN_MODULES = ["AcnProofs.C05"]
@@ -39,6 +42,7 @@ REQUIRED_THEOREMS = [
     "Acn.C05.invoked_after_events", "Acn.C05.invoked_iff_valid", "Acn.C05.run_invoked_iff",
     "Acn.C05.views_faithful", "Acn.C05.sched_sees_handed_view", "Acn.C05.view_true", "Acn.C05.view_true_valid",
     "Acn.C05.isolation_model", "Acn.C05.isolation_run", "Acn.C05.infra_static", "Acn.C05.sim_invoked_core",
+    "Acn.C05.run_invoked_iff_fuelFor", "Acn.C05.active_order", "Acn.C05.infra_true", "Acn.C05.infra_ids_named",
 ]
 BUDGET = {"quick": 400, "thorough": 4000, "search": 1200}
 TRUSTED = ["copy.deepcopy / numpy array copy semantics (the isolation half is validated by the vandalising "
@@ -52,9 +56,12 @@ ASSUMPTIONS = ["trigger theorems: none on the configuration (any sessions, times
                "active_evs copies, the dicts/lists/arrays of the other getters — not for get_constraints() (live by design)",
                "last_applied_pilot_signals is empty while iteration-1 <= 0 (follows the code; DESIGN §8)"]
 RULE = ("simcase scenario (1-6 stations, 0-25 sessions, back-to-back reuse, simultaneous events) x max_recompute in "
-        "{None,1,2,3,7,(0)} x 0-4 extra RecomputeEvents (also on event periods and after the last departure); scripted "
+        "{None,1,2,3,7,(0)} x 0-4 extra RecomputeEvents (also on event periods and after the last departure) x 0-3 extra "
+        "constraints (subsets of stations, signed / fractional coefficients, default / duplicate names); scripted "
         "multi-period schedulers (model + oracle) or real algorithms (oracle only); 12% malformed (overlap, dep<=arr, "
         "negative timestamps = late events, bad schedules, scheduler crash); every case runs clean AND vandalised; "
+        "thorough adds EVERY valid layout with <=3 sessions on <=2 stations within horizon 5 x max_recompute in "
+        "{None,1,2,3} x a cycling recompute-event set (5728 cases; clean twin for every 8th); "
         "non-trivial = >=3 invocations, at least one triggered by max_recompute alone or at least one period without "
         "invocation, and >=1 view with an active session; distinct by hash of the case")
 
@@ -136,6 +143,14 @@ def _truth(sim, ctx):
             out["prices"] = [_f(x) for x in tar.get_tariffs(sim.start + timedelta(minutes=sim.period) * t, 3, sim.period)]
         except Exception as e:  # noqa: BLE001
             out["prices"] = "err:" + type(e).__name__
+        try:
+            out["prices0"] = [_f(x) for x in tar.get_tariffs(sim.start, 2, sim.period)]
+        except Exception as e:  # noqa: BLE001
+            out["prices0"] = "err:" + type(e).__name__
+        try:
+            out["demand_charge"] = _f(tar.get_demand_charge(sim.start + timedelta(minutes=sim.period) * t))
+        except Exception as e:  # noqa: BLE001
+            out["demand_charge"] = "err:" + type(e).__name__
     return out
 
 
@@ -161,13 +176,21 @@ def _record(algo, iface, sessions, sim, ctx):
                            "max": _f(iface.max_pilot_signal(st)), "min": _f(iface.min_pilot_signal(st)),
                            "V": _f(iface.evse_voltage(st)), "phase": _f(iface.evse_phase(st))} for st in info.station_ids]
         rec["amp_periods"] = [_f(iface.remaining_amp_periods(s)) for s in sessions]
-    except AttributeError as e:        # constraint-free network: open finding F3 (C06)
+    except AttributeError as e:        # (was defect F3 on constraint-free networks; judged as infra_wrong now)
         rec["infra"] = None
         rec["infra_err"] = type(e).__name__
     try:
         rec["prices"] = [_f(x) for x in iface.get_prices(3)]
     except Exception as e:  # noqa: BLE001
         rec["prices"] = "err:" + type(e).__name__
+    try:
+        rec["prices0"] = [_f(x) for x in iface.get_prices(2, 0)]
+    except Exception as e:  # noqa: BLE001
+        rec["prices0"] = "err:" + type(e).__name__
+    try:
+        rec["demand_charge"] = _f(iface.get_demand_charge())
+    except Exception as e:  # noqa: BLE001
+        rec["demand_charge"] = "err:" + type(e).__name__
     rec["truth"] = _truth(sim, ctx)
     return rec
 
@@ -184,6 +207,34 @@ def _scribble(a):
             a[...] = None
     except Exception:  # noqa: BLE001  (read-only / 0-d)
         pass
+
+
+def _try_mutate(x):
+    """mutate a returned object in place where its type allows it (ndarray / list / dict / set /
+    bytearray; floats, numpy scalars, datetimes are immutable: an in-place operator rebinds a local)"""
+    if isinstance(x, np.ndarray):
+        _scribble(x)
+        try:
+            x.resize((0,), refcheck=False)
+        except Exception:  # noqa: BLE001
+            pass
+    elif isinstance(x, list):
+        x.append(-1.0)
+        x.reverse()
+        del x[:]
+    elif isinstance(x, (dict, set)):
+        x.clear()
+    else:
+        try:
+            x += 12345          # noqa: F841 — rebinding only, unless the type implements __iadd__ in place
+            x *= -1
+        except Exception:  # noqa: BLE001
+            pass
+        for name in list(getattr(x, "__dict__", {})):
+            try:
+                setattr(x, name, None)
+            except Exception:  # noqa: BLE001
+                pass
 
 
 def _vandalise_sessions(lst):
@@ -284,12 +335,13 @@ def _vandalise(algo, iface, sessions, schedule):
             del al[:]
     except AttributeError:
         pass
-    try:
-        p = iface.get_prices(3)
-        _scribble(p)
-    except Exception:  # noqa: BLE001
-        pass
-    return None           # σ is returned unchanged
+    for getter in (lambda: iface.get_prices(3), lambda: iface.get_prices(2, 0), iface.get_demand_charge,
+                   iface.get_prev_peak, lambda: iface.current_datetime, lambda: iface.period):
+        try:
+            _try_mutate(getter())
+        except Exception:  # noqa: BLE001
+            pass
+    return None           # σ is returned unchanged (nothing is registered, re-registered or replaced)
 
 
 class Runaway(Exception):
@@ -335,6 +387,10 @@ def _one_run(case, vandal):
         box["ns"] = ns
         sim, ctx = S.build_sim(case, hooks)
         ctx["network"].limit = _bound(case)
+        for c in case.get("extra_constraints", []):
+            with warnings.catch_warnings():
+                warnings.simplefilter("ignore")
+                ctx["network"].add_constraint(Current({k: I.num(v) for k, v in c["current"]}), I.num(c["limit"]), name=c.get("name"))
         box["sim"], box["ctx"] = sim, ctx
         try:
             from acnportal.signals.tariffs.tou_tariff import TimeOfUseTariff
@@ -351,12 +407,25 @@ def _one_run(case, vandal):
 
 def run_impl(case):
     obs = _one_run(case, vandal=True)
+    if case.get("exhaustive"):
+        # small-scope enumeration (invocation set, views): the clean twin is run for every 8th layout only
+        if case["exhaustive"] % 8 == 0:
+            obs["clean"] = _one_run(case, vandal=False)
+        else:
+            obs["clean"] = {k: v for k, v in obs.items() if k != "clean"}
+        return obs
     obs["clean"] = _one_run(case, vandal=False)
     return obs
 
 
 def model_request(case):
-    return S.model_request(case)
+    req = S.model_request(case)
+    if req is not None:
+        req["net"] = {"phases": [f2b(float(I.num(st.get("phase", 0)))) for st in case["stations"]],
+                      "constraints": [{"current": [[k, f2b(float(I.num(v)))] for k, v in c["current"]],
+                                       "limit": f2b(float(I.num(c["limit"]))), "name": c.get("name")}
+                                      for c in all_constraints(case)]}
+    return req
 
 
 # ------------------------------------------------------------------ correspondence
@@ -410,21 +479,50 @@ def compare(case, obs, model):
                     or not close(got["min"], want["min"]) or len(got["allowable"]) != len(want["allowable"]) \
                     or any(not close(p, q) for p, q in zip(got["allowable"], want["allowable"])):
                 diffs.append(f"infra station {x['id']}: model {got} cont={x['continuous']} implementation {want} cont={exp['is_continuous'][k]}")
+    mf = model.get("infra_full")
+    if mf is None:
+        diffs.append("model answer carries no infra_full")
+    else:
+        got = {"constraint_matrix": [[_f(b2f(x)) for x in row] for row in mf["constraint_matrix"]],
+               "constraint_limits": [_f(b2f(x)) for x in mf["constraint_limits"]], "phases": [_f(b2f(x)) for x in mf["phases"]],
+               "voltages": [_f(b2f(x)) for x in mf["voltages"]], "constraint_ids": mf["constraint_ids"], "station_ids": mf["station_ids"]}
+        for k, val in got.items():
+            if not _same(val, exp[k]):
+                diffs.append(f"infrastructure {k}: model {val} network built with {exp[k]}")
+            for v in iv:
+                if v["infra"] is not None and not _same(val, v["infra"][k]):
+                    diffs.append(f"view t={v['t']} infrastructure_info().{k}: impl {v['infra'][k]} model {val}")
+                    break
     return diffs[:12]
 
 
 # ------------------------------------------------------------------ oracle: C05 stated on the implementation
 
 
+def all_constraints(case):
+    """the add_constraint calls of a case, in order: simcase's aggregate constraint "agg" (Current of all
+    station ids), then C05's `extra_constraints` [{"current": [[station, coeff]…], "limit": x, "name": str|None}]"""
+    out = []
+    if case.get("constraint"):
+        out.append({"current": [[st["id"], 1.0] for st in case["stations"]], "limit": case["constraint"]["limit"], "name": "agg"})
+    out.extend(case.get("extra_constraints", []))
+    return out
+
+
 def expected_infra(case):
     """What the network's description must be, computed from the case and FRESH EVSE objects (not the
-    simulator's network, which a broken isolation could have corrupted)."""
+    simulator's network, which a broken isolation could have corrupted).  A constraint-free network is
+    the 0 x N view."""
     sts = case["stations"]
     evses = [I.make_evse(st["kind"], st["id"]) for st in sts]
-    con = case.get("constraint")
-    return {"constraint_matrix": [[_f(1.0)] * len(sts)] if con else None,
-            "constraint_limits": [_f(I.num(con["limit"]))] if con else None,
-            "constraint_ids": ["agg"] if con else None,
+    rows, limits, names = [], [], []
+    for c in all_constraints(case):
+        co = {k: float(I.num(v)) for k, v in c["current"]}
+        rows.append([_f(co.get(st["id"], 0.0)) for st in sts])
+        limits.append(_f(I.num(c["limit"])))
+        nm = c.get("name") if c.get("name") is not None else "_const_{0}".format(len(names))
+        names.append(nm + "_v2" if nm in names else nm)
+    return {"constraint_matrix": rows, "constraint_limits": limits, "constraint_ids": names,
             "phases": [_f(I.num(st.get("phase", 0))) for st in sts], "voltages": [_f(I.num(st["V"])) for st in sts],
             "station_ids": [st["id"] for st in sts], "max_pilot": [_f(e.max_rate) for e in evses],
             "min_pilot": [_f(e.min_rate) for e in evses], "allowable": [_lst(e.allowable_pilot_signals) for e in evses],
@@ -530,6 +628,10 @@ def oracle(case, obs):
             fails.append({"kind": "view_mismatch:static", "detail": f"period {t}: max_recompute_time {v['max_recompute']} period {v['period']}"})
         if "prices" in tr and not _same(v["prices"], tr["prices"]):
             fails.append({"kind": "view_mismatch:prices", "detail": f"period {t}: get_prices {v['prices']} truth {tr['prices']}"})
+        if "prices0" in tr and not _same(v.get("prices0"), tr["prices0"]):
+            fails.append({"kind": "view_mismatch:prices", "detail": f"period {t}: get_prices(2, 0) {v.get('prices0')} truth {tr['prices0']}"})
+        if "demand_charge" in tr and not _same(v.get("demand_charge"), tr["demand_charge"]):
+            fails.append({"kind": "view_mismatch:prices", "detail": f"period {t}: get_demand_charge {v.get('demand_charge')} truth {tr['demand_charge']}"})
         if v["infra"] is not None:
             if not _same(v["infra"], tr["infra"]):
                 fails.append({"kind": "view_mismatch:infra", "detail": f"period {t}: infrastructure_info {v['infra']} network {tr['infra']}"})
@@ -658,7 +760,7 @@ def corpus():
     out.append({"stations": two, "constraint": {"limit": 64.0},
                 "sessions": [_s("a", "S0", 0, 8, req=0.5), _s("b", "S0", 8, 11), _s("c", "S1", 2, 9, req=0.2)],
                 "recomputes": [4, 4, 12], "period": 5, "max_recompute": 3, "noise": [], "sched": sched})
-    # constraint-free network (F3 territory: infrastructure_info() unavailable, everything else judged)
+    # constraint-free network: the 0 x N infrastructure view (was defect F3)
     out.append({"stations": two, "constraint": None, "sessions": [_s("a", "S0", 1, 4), _s("b", "S1", 1, 3)],
                 "recomputes": [], "period": 1, "max_recompute": 2, "noise": [], "sched": sched})
     # late events: negative timestamps are all processed in period 0 (timestamp < iteration)
@@ -694,7 +796,16 @@ def _retime(rng, case):
     case["recomputes"] = recs
     if case.get("constraint") is None and rng.random() < 0.6:
         case["constraint"] = {"limit": rng.choice([40.0, 64.0, 200.0, 1000.0])}
-    # keep the tail of the run modelled by the script (recomputes may have extended it)
+    ids = [st["id"] for st in case["stations"]]
+    extra = []
+    for _ in range(rng.choice([0, 0, 1, 1, 2, 3])):
+        sub = [i for i in ids if rng.random() < 0.6] or [rng.choice(ids)]
+        rng.shuffle(sub)
+        extra.append({"current": [[i, rng.choice([1, 1, -1, 0.5, 2, 0.25, -1.5])] for i in sub],
+                      "limit": rng.choice([16.0, 32.5, 80.0, 1e4]),
+                      "name": rng.choice([None, None, f"c{len(extra)}", "agg", "_const_1"])})
+    if extra:
+        case["extra_constraints"] = extra
     return case
 
 
@@ -712,7 +823,37 @@ def _late(rng, case):
     return case
 
 
+def exhaustive():
+    """EVERY valid layout with <= 3 sessions on <= 2 stations within horizon 5, x max_recompute in
+    {None,1,2,3}, with a recompute-event set that cycles through {}, {t}, {t,t'} (on and off event periods,
+    after the last departure, duplicated).  The invocation set is decided by the oracle for each."""
+    slots = [(st, a, d) for st in ("S0", "S1") for a in range(0, 5) for d in range(a + 1, 6)]
+    recsets = [[], [0], [2], [5], [6], [1, 3], [4, 4], [2, 7]]
+    sched = {"type": "scripted", "default": [["S0", [16.0]], ["S1", [8.0, 8.0]]], "script": []}
+    stations = [_basic(0), _basic(1, {"t": "finite", "rates": [8, 16, 24, 32]})]
+    out = []
+    k = 0
+    for n in range(0, 4):
+        for combo in itertools.combinations(range(len(slots)), n):
+            ss = [slots[j] for j in combo]
+            if any(a[0] == b[0] and not (a[2] <= b[1] or b[2] <= a[1]) for i, a in enumerate(ss) for b in ss[i + 1:]):
+                continue
+            for mr in (None, 1, 2, 3):
+                k += 1
+                sess = [_s(f"x{i}", st, a, d, req=[50.0, 0.05, 0.3][(i + k) % 3]) for i, (st, a, d) in enumerate(ss)]
+                if k % 2:
+                    sess.reverse()
+                out.append({"stations": stations, "constraint": {"limit": 64.0} if k % 3 else None, "sessions": sess,
+                            "recomputes": list(recsets[(k // 4) % len(recsets)]), "period": 5, "max_recompute": mr,
+                            "noise": [], "sched": sched, "exhaustive": k})
+    return out
+
+
 def generate(rng, n, tier):
+    if tier == "thorough":
+        # the enumeration + a reduced random stream (total wall stays well inside the thorough budget)
+        ex = exhaustive()
+        return ex + generate(rng, max(n - len(ex) // 3, n // 3), "thorough-random")
     out = []
     for i in range(n):
         r = i % 25
@@ -750,6 +891,7 @@ def features(case, obs):
     views = obs.get("views", [])
     evs = {s["arrival"] for s in case["sessions"]} | {s["departure"] for s in case["sessions"]} | set(case.get("recomputes", []))
     n = len(case["sessions"])
+    arr_of = {s["session"]: s["arrival"] for s in case["sessions"]}
     f = [f"max_recompute={case.get('max_recompute')}", f"sched={case['sched']['type']}", f"err={obs.get('err')}",
          f"malformed={case.get('malformed')}", f"constraint={'yes' if case.get('constraint') else 'no'}",
          "sessions=" + ("0" if n == 0 else "1-3" if n <= 3 else "4-8" if n <= 8 else "9+"),
@@ -769,7 +911,13 @@ def features(case, obs):
     if any(len(v["truth"]["sessions"]) < sum(1 for c in v["truth"]["connected"] if c is not None) for v in views):
         f.append("view_excludes_fully_charged_session")
     if any(v["infra"] is None for v in views):
-        f.append("infra_unavailable_F3")
+        f.append("infra_unavailable")
+    f.append(f"constraints={min(len(all_constraints(case)), 3)}")
+    if any([s["session"] for s in v["sessions"]] != sorted([s["session"] for s in v["sessions"]],
+                                                          key=lambda x: (arr_of.get(x, 0), x)) for v in views):
+        f.append("view_order_differs_from_arrival_order")
+    if case.get("exhaustive"):
+        f.append("exhaustive_small_scope")
     if any(s["arrival"] < 0 for s in case["sessions"]) or any(r < 0 for r in case.get("recomputes", [])):
         f.append("late_event")
     if any(s["arrival"] in {x["departure"] for x in case["sessions"]} for s in case["sessions"]):
